@@ -72,7 +72,7 @@ def source(plan):
             okw.append(f"{k}=True")
     if plan.get("mode") == "class":
         okw.append("mode='w'")
-    L = ["from utype import Schema, DataClass, Field, Options", "from typing import List, Optional",
+    L = ["from utype import Schema, DataClass, Field, Options", "from typing import List, Optional, Final",
          "from sim.faults import Leaf, hook_point", ""]
     if plan.get("inherit"):
         # the fields live in a base class with default options; the class under test only brings its options
@@ -90,7 +90,7 @@ def source(plan):
     if "pos" in fs:
         L.append("    pos: int = Field(ge=0, default=1)")
     if "fin" in fs:
-        L.append("    fin: int = Field(immutable=True)")
+        L.append("    fin: Final[int] = Field(ge=-100)" if plan.get("fin_final") else "    fin: int = Field(immutable=True)")
     if "ali" in fs:
         L.append("    ali: int = Field(alias='AL', alias_from=['al2'], default=7%s)" % (", case_insensitive=True" if plan.get("ci") else ""))
     if "hid" in fs:
@@ -170,6 +170,7 @@ def generate(rng, tier):
     fs = [k for k in ORDER if k in fs]
     plan = {"prop": ID, "base": base, "fields": fs, "ci": rng.random() < 0.4,
             "options": {}, "inherit": rng.random() < 0.3, "mode": None}
+    plan["fin_final"] = rng.random() < 0.4
     if "mreq" in fs:
         plan["mode"] = rng.choice([None, "class", "runtime"]) if base == "schema" else rng.choice([None, "class"])
     o = plan["options"]
@@ -203,7 +204,7 @@ def generate(rng, tier):
     nops = rng.choice([6, 8, 10, 14, 20]) if tier == "quick" else rng.choice([8, 12, 16, 24])
     ops = []
     schema_ops = ["setattr", "setattr", "delattr", "setitem", "setitem", "delitem", "update_m", "update_kw", "pop", "pop_d",
-                  "popitem", "setdefault", "setdefault_v", "clear", "ior", "copy", "setitem_x", "update_x"]
+                  "popitem", "setdefault", "setdefault_v", "clear", "ior", "copy", "setitem_x", "update_x", "inst_arg"]
     dc_ops = ["setattr", "setattr", "setattr", "delattr"]
     for _ in range(nops):
         kind = rng.choice(schema_ops if base == "schema" else dc_ops)
@@ -220,6 +221,17 @@ def generate(rng, tier):
                 op["value"] = _value_for(rng, f, pool)
             if kind == "pop_d":
                 op["value"] = "dflt"
+        elif kind == "inst_arg":
+            # another valid instance of the same class as the argument of update() / |=
+            other = {"req": rng.choice([3, "4"])}
+            if "fin" in fs:
+                other["fin"] = rng.choice([init["fin"], 9, "10"])
+            for k2 in fs:
+                if k2 in ("pos", "opt", "hid") and rng.random() < 0.5:
+                    other[k2] = {"pos": 7, "opt": "q", "hid": 2}[k2]
+            if plan["mode"] and "mreq" in fs:
+                other["mreq"] = 8
+            op = {"op": rng.choice(["update_inst", "ior_inst"]), "other": other}
         elif kind in ("setitem_x",):
             op["op"] = "setitem"
             op["field"] = None
@@ -445,11 +457,29 @@ def apply_op(plan, inst, op, res):
             else:
                 inst |= m
                 return inst
+    elif k in ("update_inst", "ior_inst"):
+        other = _make(plan, type(inst), op["other"])
+        if k == "update_inst":
+            inst.update(other)
+        else:
+            inst |= other
+            return inst
     elif k == "copy":
         return inst.copy()
     else:
         raise ValueError(k)
     return None
+
+
+def _make(plan, M, data):
+    data = {k: _val(v) for k, v in data.items()}
+    if plan.get("mode") == "runtime":
+        from utype import Options
+        okw = {k: v for k, v in plan["options"].items()}
+        if okw.get("addition") == "leaf":
+            okw["addition"] = faults.Leaf
+        return M.__from__(data, options=Options(mode="w", **okw))
+    return M(**data)
 
 
 SINGLE = {"setattr", "delattr", "setitem", "delitem", "pop", "pop_d", "popitem", "setdefault", "setdefault_v"}
@@ -462,14 +492,7 @@ def execute(plan):
     mod = kernel.make_module("verif_c07_mod", source(plan))
     M = mod.M
     try:
-        if plan.get("mode") == "runtime":
-            from utype import Options
-            okw = {k: v for k, v in plan["options"].items()}
-            if okw.get("addition") == "leaf":
-                okw["addition"] = faults.Leaf
-            inst = M.__from__({k: _val(v) for k, v in plan["init"].items()}, options=Options(mode="w", **okw))
-        else:
-            inst = M(**{k: _val(v) for k, v in plan["init"].items()})
+        inst = _make(plan, M, plan["init"])
     except Exception as e:  # noqa
         raise kernel.HarnessError(f"C07 world: initial instance rejected: {type(e).__name__}: {e}")
     faults.set_plan(plan["faults"])
@@ -546,7 +569,7 @@ def execute(plan):
         if res.violations:
             break
     if res.nontrivial:
-        res.nontrivial = kernel.digest_of([plan["base"], plan["fields"], plan["options"], plan.get("inherit"), plan.get("mode"),
+        res.nontrivial = kernel.digest_of([plan["base"], plan["fields"], plan["options"], plan.get("inherit"), plan.get("mode"), plan.get("fin_final"),
                                            [[o["op"], o.get("key") or o.get("field")] for o in plan["ops"]]])
     return res
 
